@@ -67,6 +67,13 @@ theorem valid_pin_policy (p : Bytes) (h : isValidPin p = true) :
   simp only [Bool.and_eq_true, List.all_eq_true, beq_iff_eq, List.any_eq_true] at h
   exact ⟨h.1.2, h.1.1, h.2⟩
 
+/-- **every PIN the manager generates satisfies the device policy**, whatever the random source
+    draws and however many draws it takes -/
+theorem generated_pin_valid (draws : List Bytes) (p : Bytes) (h : generatePin draws = some p) :
+    p.length = 8 ∧ (∀ c ∈ p, isAlnum c = true) ∧ ∃ c ∈ p, isAlpha c = true := by
+  unfold generatePin at h
+  exact valid_pin_policy p (by simpa using List.find?_some h)
+
 /-- **recoverability, partial**: a life that does not hit the stranding window (F-10a) keeps a
     working PIN recoverable, provided the generated PIN has no surrounding whitespace (it is
     alphanumeric) -/
